@@ -523,6 +523,31 @@ func MixedLanguageCases() []*Case {
 	return out
 }
 
+// DependencyCases: bundle files referring to types of external dependencies
+// (descriptors, not sources) whose directory names sit next to the bundle's own
+// package (foo.v1 / foo.v1beta1 / foo.v10 / foo.v1.sub-like names).
+func DependencyCases() []*Case {
+	var out []*Case
+	for _, dep := range []string{"other/v1", "t/v1beta1", "t/v10", "t/v1test", "tt/v1", "t/common/v1"} {
+		for _, kind := range []string{"object", "enum"} {
+			df := &File{Dir: dep, Name: "types", IsProto: true, IsDep: true}
+			var target *Decl
+			if kind == "enum" {
+				target = enumD("Shared", "ONE", "TWO")
+			} else {
+				target = obj("Shared", fld("name", T(TString)))
+			}
+			df.Add(target)
+			jf := file("t/v1", "a")
+			depPkg := strings.ReplaceAll(dep, "/", ".")
+			jf.Imports = []Import{{Pkg: depPkg, Alias: "dep"}}
+			jf.Add(obj("User", fld("ref", RefTo(target, "dep")), fld("refs", ArrayOf(RefTo(target, "dep")))))
+			out = append(out, &Case{ID: fmt.Sprintf("dependency:%s:%s", dep, kind), Family: "dependencies", Coord: "dependencies|" + dep, P: &Program{Files: []*File{jf, df}}})
+		}
+	}
+	return out
+}
+
 // AllContractCases: the families whose expected contract the reference compiler knows.
 func AllContractCases(thorough bool) []*Case {
 	var out []*Case
@@ -535,6 +560,7 @@ func AllContractCases(thorough bool) []*Case {
 	out = append(out, EnumCases()...)
 	out = append(out, ReferenceCases()...)
 	out = append(out, MixedLanguageCases()...)
+	out = append(out, DependencyCases()...)
 	out = append(out, ServiceCases()...)
 	out = append(out, TopicCases()...)
 	out = append(out, EntityCases(thorough)...)
@@ -557,6 +583,64 @@ func AnnotationCases() []*Case {
 		e.Options[0].Desc = "first"
 		f.Add(e)
 		add("descriptions", f)
+	}
+	{ // only some siblings carry a description (= a source location in the compiled file)
+		f := file("t/v1", "a")
+		e1 := enumD("First", "ONE", "TWO", "THREE")
+		e1.ExplicitUnspecified = false
+		e1.Options[1].Desc = "only the middle one"
+		f.Add(e1)
+		e2 := enumD("Second", "ONE", "TWO")
+		e2.Desc = []string{"Second has a description, First and Third have none"}
+		e2.Options[0].Desc = "first described, second not"
+		f.Add(e2)
+		f.Add(enumD("Third", "ONE"))
+		o1 := obj("Plain", fld("a", T(TString)), &Field{Name: "b", T: T(TString), Desc: "described"}, fld("c", T(TString)))
+		f.Add(o1)
+		o2 := obj("Described", &Field{Name: "a", T: T(TString), Desc: "described"}, fld("b", InlineOf(enumD("", "X", "Y"))), fld("c", InlineOf(obj("", fld("z", T(TBool))))))
+		o2.Desc = []string{"Described has one"}
+		o2.Fields[1].T.Inline.Options[1].Desc = "second only"
+		f.Add(o2)
+		f.Add(obj("Last", fld("a", T(TString))))
+		add("partial-descriptions", f)
+	}
+	{ // a oneof without options: compiled to a message marked only by its option
+		f := file("t/v1", "a")
+		empty := oneofD("Empty")
+		f.Add(empty)
+		f.Add(obj("User", fld("pick", RefTo(empty, "")), fld("picks", ArrayOf(RefTo(empty, ""))), fld("inlineEmpty", InlineOf(oneofD("")))))
+		add("empty-oneof", f)
+	}
+	// inline enums with descriptions, preceded by different numbers of nested messages / enums
+	for _, shape := range []string{"after-map", "after-inline-object", "two-inline-enums", "after-two-objects-and-enum", "enum-first"} {
+		f := file("t/v1", "a")
+		mkEnum := func(tag string) *Type {
+			e := enumD("", "ONE", "TWO")
+			e.Desc = []string{"the " + tag + " enum"}
+			e.Options[0].Desc = tag + " one"
+			e.Options[1].Desc = tag + " two"
+			return InlineOf(e)
+		}
+		mkObj := func(tag string) *Type {
+			o := obj("", &Field{Name: "x", T: T(TString), Desc: tag + " x"})
+			o.Desc = []string{"the " + tag + " object"}
+			return InlineOf(o)
+		}
+		var fields []*Field
+		switch shape {
+		case "after-map":
+			fields = []*Field{fld("tags", MapOf(T(TString))), fld("kind", mkEnum("kind"))}
+		case "after-inline-object":
+			fields = []*Field{fld("inner", mkObj("inner")), fld("kind", mkEnum("kind"))}
+		case "two-inline-enums":
+			fields = []*Field{fld("kind", mkEnum("kind")), fld("mode", mkEnum("mode"))}
+		case "after-two-objects-and-enum":
+			fields = []*Field{fld("a", mkObj("a")), fld("kind", mkEnum("kind")), fld("b", mkObj("b")), fld("mode", mkEnum("mode")), fld("byName", MapOf(mkObj("entry")))}
+		case "enum-first":
+			fields = []*Field{fld("kind", mkEnum("kind")), fld("inner", mkObj("inner")), fld("tags", MapOf(T(TString)))}
+		}
+		f.Add(obj("Holder", fields...))
+		add("inline-descriptions:"+shape, f)
 	}
 	{
 		f := file("t/v1", "a")
